@@ -124,8 +124,12 @@ def run_one(mod, tier, seed, index, spec):
     ctx = Ctx(mod.ID, tier, seed, index, spec)
     timeout = getattr(mod, "CASE_TIMEOUT", 120)
     t0 = time.time()
+    # the per-case limit counts CPU seconds of this worker (ITIMER_PROF), so a loaded machine does not turn cases into
+    # timeouts; a wall-clock alarm at 6x is the backstop for a case that blocks without computing
+    signal.signal(signal.SIGPROF, _alarm)
     signal.signal(signal.SIGALRM, _alarm)
-    signal.setitimer(signal.ITIMER_REAL, timeout)
+    signal.setitimer(signal.ITIMER_PROF, timeout)
+    signal.setitimer(signal.ITIMER_REAL, 6 * timeout)
     try:
         mod.run_case(spec, ctx)
     except CaseTimeout:
@@ -134,6 +138,7 @@ def run_one(mod, tier, seed, index, spec):
     except Exception as e:  # harness error: never a verdict about cardillo
         ctx.rec["harness_error"] = "".join(traceback.format_exception(type(e), e, e.__traceback__))[-3000:]
     finally:
+        signal.setitimer(signal.ITIMER_PROF, 0)
         signal.setitimer(signal.ITIMER_REAL, 0)
     ctx.rec["wall"] = round(time.time() - t0, 4)
     return ctx.rec
@@ -169,7 +174,10 @@ def run_property(pid, tier, seed, replay=None, verbose=False):
     mod = load_prop(pid)
     specs = mod.cases(tier, seed)
     ncases = len(specs)
+    # wall-clock watchdog (firing => inconclusive, never a verdict): the module's own estimate for an idle 16-core machine,
+    # times a generous factor because the sandbox is shared
     budget = getattr(mod, "WALL_BUDGET", {"quick": 600, "thorough": 3600})[tier]
+    budget = max(budget * float(os.environ.get("VERIF_BUDGET_FACTOR", "4")), 1800.0)
     work = tempfile.mkdtemp(prefix=f"verif-{pid}-")
     recs, dead = [], []
     try:
